@@ -77,6 +77,14 @@ bool SignalEventImpl::enable()
     if (is_inited_) {
         for (int signo : sigset_) {
             if (!wp_loop_->subscribeSignal(signo, this)) {
+                //! 订阅失败，要把本次已订阅成功的信号退订掉，否则订阅记录会残留
+                if (!is_enabled_) {
+                    for (int done_signo : sigset_) {
+                        if (done_signo == signo)
+                            break;
+                        wp_loop_->unsubscribeSignal(done_signo, this);
+                    }
+                }
                 return false;
             }
         }
